@@ -179,7 +179,7 @@ func c18Strategy(cc *run.Case, ns namedStrat, class string, n int) {
 }
 
 func c18(ctx *run.Ctx) {
-	nrand := ctx.Pick(4, 16)
+	nrand := ctx.Pick(4, 40)
 	classes := []string{gen.Walk, gen.Walk2, gen.Dyadic, gen.Ties, gen.Degen}
 	if !ctx.Quick() {
 		classes = gen.OHLCVClasses
